@@ -55,16 +55,23 @@ Pipe(bd)       == N("pipe", "", 0, bd, <<>>)
 Async(bd)      == N("async", "", 0, bd, <<>>)     \* { bd; } & wait
 BgKill(g)      == N("bgkill", g, 0, <<>>, <<>>)   \* { kill -s g $$; } &
 Wait           == N("wait", "", 0, <<>>, <<>>)
+BgExit         == N("bgexit", "", 0, <<>>, <<>>)   \* a job that ends at once: status 0 &
+\* one trap command naming several conditions (b = the conditions, as nodes)
+SigNodes(gs)   == [i \in 1..Len(gs) |-> N("sig", gs[i], 0, <<>>, <<>>)]
+TrapCmdN(gs, bd) == N("trapcmdn", "", 0, bd, SigNodes(gs))
+TrapIgnN(gs)   == N("trapignn", "", 0, <<>>, SigNodes(gs))
+TrapDflN(gs)   == N("trapdfln", "", 0, <<>>, SigNodes(gs))
 BgBlock        == N("bgblock", "", 0, <<>>, <<>>) \* a job that never ends by itself: sink </tmp/fifo & p1=$!
 WaitJob        == N("waitjob", "", 0, <<>>, <<>>) \* wait $p1
 
 -----------------------------------------------------------------------------
 \* Concrete syntax
-RECURSIVE Render(_), RenderSeq(_), Words(_)
+RECURSIVE Render(_), RenderSeq(_), Words(_), Names(_)
+Names(q) == IF q = <<>> THEN "" ELSE " " \o q[1].s \o Names(Tail(q))
 Words(n) == IF n = 0 THEN "" ELSE " x" \o Words(n - 1)
 RenderSeq(q) == IF q = <<>> THEN ":"
                 ELSE IF Len(q) = 1 THEN Render(q[1])
-                ELSE Render(q[1]) \o (IF q[1].k = "bgkill" THEN " " ELSE "; ") \o RenderSeq(Tail(q))
+                ELSE Render(q[1]) \o (IF q[1].k \in {"bgkill", "bgexit"} THEN " " ELSE "; ") \o RenderSeq(Tail(q))
 Render(nd) ==
   CASE nd.k = "probe"   -> "probe " \o nd.s
     [] nd.k = "disp"    -> "disp " \o nd.s
@@ -86,6 +93,10 @@ Render(nd) ==
     [] nd.k = "bgkill"  -> "{ kill -s " \o nd.s \o " $$; } &"
     [] nd.k = "wait"    -> "wait"
     [] nd.k = "bgblock" -> "sink </tmp/fifo & p1=$!"
+    [] nd.k = "bgexit"  -> "status 0 &"
+    [] nd.k = "trapcmdn" -> "trap '" \o RenderSeq(nd.a) \o "'" \o Names(nd.b)
+    [] nd.k = "trapignn" -> "trap ''" \o Names(nd.b)
+    [] nd.k = "trapdfln" -> "trap -" \o Names(nd.b)
     [] nd.k = "waitjob" -> "wait $p1"
 
 -----------------------------------------------------------------------------
@@ -125,6 +136,10 @@ SetTrap(s, g, v) ==
 
 \* traps of a subshell: commands reset, ignores kept
 ResetTraps(t) == [g \in SigSet |-> IF t[g].kind = "cmd" THEN None ELSE t[g]]
+
+\* one trap command with several conditions: each condition is handled on its own
+RECURSIVE SetTraps(_, _, _)
+SetTraps(s, q, v) == IF q = <<>> THEN s ELSE SetTraps(SetTrap(s, q[1].s, v), Tail(q), v)
 
 RECURSIVE Exec(_, _), ExecSeq(_, _), Boundary(_), RunPending(_, _), RunTrapK(_, _, _), Repeat(_, _, _)
 
@@ -206,6 +221,10 @@ Exec(nd, s) ==
                                    \cup Boundary([a EXCEPT !.st = 0])
 
     [] nd.k = "bgblock" -> Leaf([s EXCEPT !.st = 0])
+    [] nd.k = "bgexit"  -> Leaf([s EXCEPT !.st = 0])
+    [] nd.k = "trapcmdn" -> Leaf([SetTraps(s, nd.b, Cmd(nd.a)) EXCEPT !.st = 0])
+    [] nd.k = "trapignn" -> Leaf([SetTraps(s, nd.b, Ign) EXCEPT !.st = 0])
+    [] nd.k = "trapdfln" -> Leaf([SetTraps(s, nd.b, None) EXCEPT !.st = 0])
     [] nd.k = "waitjob" -> \* the awaited job never ends: only a trapped signal ends the wait - whatever
                            \* else happens meanwhile (other jobs ending, SIGCHLD in the same batch)
                            IF s.fly = ""
@@ -313,7 +332,27 @@ WaitJobProgs ==
     prog |-> <<TrapCmd("USR1", a), BgBlock, Status(3), Ctx(k, <<Probe("a")>>), BgKill("USR1"), WaitJob, Probe("w"), Status(4), Probe("b")>>]
    : k \in {"plain", "for", "func"}, a \in {<<Probe("T"), Status(7)>>, <<Status(7), Probe("T")>>}}
 
-Programs == WaitJobProgs \cup SyncProgs1 \cup SyncProgs2 \cup OtherProgs \cup AsyncProgs
+\* the same with a further job that simply ends, before or after the signaller is started: under
+\* the enumerated schedules its SIGCHLD reaches the shell before, after or together with the
+\* trapped signal, in either order within one batch
+WaitJobProgs2 ==
+  {[fam |-> "wait-job2:" \o k, init |-> AllDefault,
+    prog |-> <<TrapCmd("USR1", <<Probe("T"), Status(7)>>), BgBlock, Status(3), Probe("a")>> \o mid \o <<WaitJob, Probe("w"), Status(4), Probe("b")>>]
+   : <<k, mid>> \in { <<"exit-kill", <<BgExit, BgKill("USR1")>> >>, <<"kill-exit", <<BgKill("USR1"), BgExit>> >>,
+                     <<"exit-exit-kill", <<BgExit, BgExit, BgKill("USR1")>> >> }}
+
+\* one trap command naming several conditions, with and without a signal ignored on entry
+MultiBody(tag) == <<Disp(tag \o "0"),
+   TrapCmdN(<<"USR1", "USR2", "INT">>, <<Probe("T")>>), Probe("s1"), Disp(tag \o "1"), Kill("USR2"), Probe("a"), Kill("INT"), Probe("b"),
+   TrapDflN(<<"INT", "USR1", "USR2">>), Probe("s2"), Disp(tag \o "2"),
+   TrapIgnN(<<"USR2", "USR1", "QUIT">>), Probe("s3"), Disp(tag \o "3"), Kill("USR2"), Kill("QUIT"), Probe("c"),
+   TrapCmdN(<<"QUIT", "INT", "USR1">>, <<Probe("U")>>), Disp(tag \o "4"), Kill("QUIT"), Probe("d"),
+   Sub(<<TrapCmdN(<<"USR1", "USR2">>, <<Probe("C")>>), Disp(tag \o "5")>>), Probe("e")>>
+MultiProgs ==
+  { [fam |-> "multi-condition", init |-> AllDefault, prog |-> MultiBody("d")],
+    [fam |-> "multi-condition-ignored-on-entry", init |-> Usr1Ignored, prog |-> MultiBody("i")] }
+
+Programs == WaitJobProgs \cup WaitJobProgs2 \cup MultiProgs \cup SyncProgs1 \cup SyncProgs2 \cup OtherProgs \cup AsyncProgs
             \cup (IF Level >= 2 THEN SyncProgs2All \cup SyncProgs3 ELSE {})
 
 \* Generator: one state per program; the line carries the script and the traces allowed
@@ -323,7 +362,7 @@ GenNext == UNCHANGED p
 GenSpec == GenInit /\ [][GenNext]_p
 EmitProgram ==
   PrintT(ToJson([fam |-> p.fam, init |-> p.init, script |-> RenderSeq(p.prog),
-                 allowed |-> Allowed(p.init, p.prog), sched |-> (p \in AsyncProgs \cup WaitJobProgs)]))
+                 allowed |-> Allowed(p.init, p.prog), sched |-> (p \in AsyncProgs \cup WaitJobProgs \cup WaitJobProgs2)]))
 
 \* sanity of the oracle itself (checked by TLC on every generated program)
 \* every allowed trace of a program that sends k signals runs the action between 1 and k times
